@@ -255,7 +255,11 @@ fn serde_paths(rep: &mut Report, c: &RegisteredClaims, wire: &[u8]) {
 }
 
 fn gen_object_text(rng: &mut Rng) -> String {
-    let names = ["iss", "sub", "aud", "jti", "exp", "nbf", "iat", "extra", "ISS", "iss ", "", "é", "exp2", "data"];
+    // registered names, and unknown names that extend / truncate / resemble them
+    let names = [
+        "iss", "sub", "aud", "jti", "exp", "nbf", "iat", "extra", "ISS", "iss ", "", "é", "exp2", "data", "issuer", "subject", "audience", "expires", "expiry", "nbf_", "iat0", "jti-2", "is", "su", "ex", "i", "sub\u{0}", "subs", "aux", "iss.sub",
+        "Exp", " exp", "e\u{301}xp",
+    ];
     let n = rng.below(10);
     let mut parts = vec![];
     for _ in 0..n {
@@ -281,7 +285,7 @@ fn gen_object_text(rng: &mut Rng) -> String {
             0 => "null".to_string(),
             1 => "123".to_string(),
             2 => "true".to_string(),
-            3 => "[1,2]".to_string(),
+            3 => rng.pick(&["[1,2]", "[]", "[\"x\"]", "[\"\"]", "[[]]", "{}", "[null]", "\"\"", "0", "-1", "[\"a\",\"b\"]"]).to_string(),
             4 => "{\"iss\":\"inner\"}".to_string(),
             5 => {
                 let d = 1 + rng.below(110);
